@@ -2,10 +2,12 @@
    (harness/guardiand/zz_verif_c15_test.go), runs the model of model/Governance.v on them and compares outcome, error
    kind and every produced VAA (checksum of its Marshal output, payload length) with what the implementation did.
    Differential-testing aid only; no theorem depends on it. *)
+From Coq Require Import Strings.String.
 From Coq Require Import List ZArith Bool Arith.
 From Coq Require Import Strings.Byte.
-From WH Require Import lib.Bytes lib.Wire gen.Extracted model.Vaa model.AlphConv model.Governance.
+From WH Require Import lib.Bytes lib.Wire lib.Ralph gen.Extracted gen.ExtractedGov model.Vaa model.AlphConv model.Governance.
 Import ListNotations.
+Import ExtractedGov.RalGov.
 Open Scope Z_scope.
 
 (* a string field: raw prefix ++ hex encoding (upper case if up) of the n bytes byte(a + i*b) ++ raw suffix *)
@@ -63,4 +65,34 @@ Definition ok (c : case) : bool :=
     | (vl, IErr x) => (out =? 1) && (err =? ecode x) && same_vaas vl sent
     | (vl, IPanic) => (out =? 2) && same_vaas vl sent
     end
+  end.
+
+(* ------------------------------------------------------------------ translator validation *)
+(* The generated Gallina parsers run on the payloads the implementation produced, compared with what the harness's own
+   interpreter of the .ral text (zz_verif_ral_test.go, an independent reading of the same source) computed: abort or
+   not, and the value of every variable both bind.  fn: 0 submitNewGuardianSet 1 submitSetMessageFee 2 submitTransferFees
+   3 submitContractUpgrade 4 parseAndVerifyRegisterChain 5 upgradeContract 6 destroyUnexecutedSequenceContracts
+   7 updateMinimalConsistencyLevel 8 updateRefundAddress.  State parameters: the contract's chain id = the target chain
+   (L for the token bridge), guardianSetIndexes[1] = the current set index. *)
+Inductive rcase := CRal (fn tchain gsi L : Z) (p : bytes) (abort : bool) (vals : list (string * rval)).
+
+Definition run_ral (fn tchain gsi L : Z) (p : bytes) : option rres :=
+  if fn =? 0 then ral_submitNewGuardianSet (RZ tchain) (RB p) (RZ tchain) (RZ gsi)
+  else if fn =? 1 then ral_submitSetMessageFee (RZ tchain) (RB p) (RZ tchain)
+  else if fn =? 2 then ral_submitTransferFees (RZ tchain) (RB p) (RZ tchain)
+  else if fn =? 3 then ral_submitContractUpgrade (RZ tchain) (RB p) (RZ tchain)
+  else if fn =? 4 then ral_parseAndVerifyRegisterChain (RZ tchain) (RB p) (RZ L)
+  else if fn =? 5 then ral_upgradeContract (RZ tchain) (RB p) (RZ tchain)
+  else if fn =? 6 then ral_destroyUnexecutedSequenceContracts (RZ tchain) (RB p) (RZ tchain)
+  else if fn =? 7 then ral_updateMinimalConsistencyLevel (RZ tchain) (RB p) (RZ tchain)
+  else ral_updateRefundAddress (RZ tchain) (RB p) (RZ tchain).
+
+Definition rval_eqb (a b : rval) : bool :=
+  match a, b with RZ x, RZ y => x =? y | RB x, RB y => bytes_eqb x y | RBool x, RBool y => Bool.eqb x y | _, _ => false end.
+
+Definition okr (c : rcase) : bool :=
+  let '(CRal fn tchain gsi L p abort vals) := c in
+  match run_ral fn tchain gsi L p with
+  | None => abort
+  | Some (_, env) => negb abort && forallb (fun nv => match rlookup (fst nv) env with Some v => rval_eqb v (snd nv) | None => false end) vals
   end.
